@@ -188,7 +188,7 @@ func bigCases(c *Ctx, rng *Rand, near func(P int) int) []jcase {
 // ---------- C03 ----------
 
 func runC03(c *Ctx) {
-	c.R.Rule = "jpegls/lossless: GolombWriter scripts against the as-coded writer model; images of 10 content classes (noise, two-level, long runs with rare interruptions, runs ending at " +
+	c.R.Rule = "jpegls/lossless: GolombWriter scripts against the as-coded writer model; images of 11 content classes (modulo-boundary jumps in well-predicted contexts, noise, two-level, long runs with rare interruptions, runs ending at " +
 		"line end, ramps, range-end samples, smooth, constant, checker, stripes), P 2..16 evenly, 1 or 3 components, sizes 1..64 " +
 		"(thorough: to 512x512, 65535x1, 1x65535), exhaustive small images at P=2/P=4 (quick: subset); non-trivial = more than one sample"
 	rng := c.Rng.Fork()
@@ -202,6 +202,13 @@ func runC03(c *Ctx) {
 	cases = append(cases, bigCases(c, rng, func(int) int { return 0 })...)
 	cases = append(cases, quotientCases(c, rng, true)...)
 	cases = append(cases, wideFlatCases(c, rng, []int{0})...)
+	// errors on the modulo boundary in well-predicted contexts (class halfjump) at every precision
+	for P := 5; P <= 16; P++ {
+		for i := 0; i < c.N(3, 12); i++ {
+			w, h, comps := rng.Range(24, 64), rng.Range(12, 40), 1+2*(i%2)
+			cases = append(cases, jcase{&image{w, h, comps, P, fill(rng, "halfjump", w, h, comps, P, 0), "halfjump"}, 0})
+		}
+	}
 	guardCorr(c, false)
 	writerCorr(c)
 	ParallelFor(len(cases), c.Work, func(i int) {
